@@ -407,6 +407,13 @@ SITES["C01"] += [
          atoms={"np.any(nums < 0)": ("anyNegative", B)}),
 ]
 
+# `argtopn` (C03): nothing for n = 0; missing scores are set aside before ranking; a partial sort only when fewer than all are wanted
+SITES["C03"] += [
+    dict(file="stats.py", cls=None, fn="argtopn", mode="branch", select="n == 0", lean="argtopnZeroBranch", atoms={"n": ("n", I)}),
+    dict(file="stats.py", cls=None, fn="argtopn", mode="branch", select="np.any(invalid)", lean="argtopnInvalidBranch", atoms={"np.any(invalid)": ("anyMissing", B)}),
+    dict(file="stats.py", cls=None, fn="argtopn", mode="branch", select="n < N", lean="argtopnPartialBranch", atoms={"n": ("n", I), "N": ("N", I)}),
+]
+
 # the runner's decisions (C02): what a request of a finished / running node yields, when an input or a dependency is reported missing or
 # ill-typed, when a dependency is required of its source, and when a component that is not required bails out
 _RUN = dict(file="pipeline/runner.py", cls="PipelineRunner")
